@@ -60,10 +60,14 @@ func iifeOf(e ast.Expr) (*ast.CallExpr, *ast.FuncLit) {
 
 // delitEligible checks the body restrictions.
 func delitEligible(fl *ast.FuncLit) bool {
+	// named results are declared as locals of the rewritten body (see deliteralize); blank names
+	// cannot be read back by a bare return, keep those literals
 	if fl.Type.Results != nil {
 		for _, f := range fl.Type.Results.List {
-			if len(f.Names) > 0 {
-				return false
+			for _, n := range f.Names {
+				if n.Name == "_" {
+					return false
+				}
 			}
 		}
 	}
@@ -280,11 +284,27 @@ func deliteralize(name string, src []byte, counter *int) ([]byte, int) {
 				label := fmt.Sprintf("_inl%d", k)
 				var temps []string
 				var pre strings.Builder
+				var named []string // named results, in order
+				var namedDecl strings.Builder
 				if fl.Type.Results != nil {
-					for i, fld := range fl.Type.Results.List {
-						t := fmt.Sprintf("_inl%d_r%d", k, i+1)
-						temps = append(temps, t)
-						fmt.Fprintf(&pre, "var %s %s\n", t, string(src[off(fld.Type.Pos()):off(fld.Type.End())]))
+					i := 0
+					for _, fld := range fl.Type.Results.List {
+						typ := string(src[off(fld.Type.Pos()):off(fld.Type.End())])
+						if len(fld.Names) == 0 {
+							i++
+							t := fmt.Sprintf("_inl%d_r%d", k, i)
+							temps = append(temps, t)
+							fmt.Fprintf(&pre, "var %s %s\n", t, typ)
+							continue
+						}
+						for _, nm := range fld.Names {
+							i++
+							t := fmt.Sprintf("_inl%d_r%d", k, i)
+							temps = append(temps, t)
+							fmt.Fprintf(&pre, "var %s %s\n", t, typ)
+							named = append(named, nm.Name)
+							fmt.Fprintf(&namedDecl, "var %s %s\n_ = %s\n", nm.Name, typ, nm.Name)
+						}
 					}
 				}
 				// body with returns replaced
@@ -297,6 +317,8 @@ func deliteralize(name string, src []byte, counter *int) ([]byte, int) {
 					case *ast.ReturnStmt:
 						var rep string
 						switch {
+						case len(x.Results) == 0 && len(named) > 0:
+							rep = "{ " + strings.Join(temps, ", ") + " = " + strings.Join(named, ", ") + "; break " + label + " }"
 						case len(x.Results) == 0:
 							rep = "{ break " + label + " }"
 						default:
@@ -314,7 +336,7 @@ func deliteralize(name string, src []byte, counter *int) ([]byte, int) {
 					bodyEdits[i].to -= bFrom
 				}
 				body := applyEdits(append([]byte(nil), src[bFrom:bTo]...), bodyEdits)
-				fmt.Fprintf(&pre, "%s:\nfor {\n%s\nbreak %s\n}\n", label, body, label)
+				fmt.Fprintf(&pre, "%s:\nfor {\n%s%s\nbreak %s\n}\n", label, namedDecl.String(), body, label)
 				repl := strings.Join(temps, ", ")
 				if len(temps) == 0 {
 					repl = ""
